@@ -47,6 +47,10 @@ class State:
                 import codecs
                 f = codecs.open(path, "w", "utf-8")          # a text stream that is not an io.TextIOBase subclass
                 self.writers[n], self.kind[n], self.path[n], self.stream[n] = FileWriter(f), "stream", path, f
+            elif n == "utf16":
+                # a caller-owned text stream with another encoding: it must be handed the text, whatever it then writes to disk
+                f = open(path, "w", encoding="utf-16", newline="")
+                self.writers[n], self.kind[n], self.path[n], self.stream[n] = FileWriter(f), "stream", path, f
             elif n == "binary":
                 f = open(path, "wb")
                 self.writers[n], self.kind[n], self.path[n], self.stream[n] = FileWriter(f), "stream", path, f
@@ -104,9 +108,15 @@ class C14System:
     def read(self, st, n):
         try:
             with open(st.path[n], "rb") as f:
-                return f.read()
+                data = f.read()
         except FileNotFoundError:
             return None
+        if n == "utf16":
+            try:
+                return data.decode("utf-16").encode("utf-8")       # compared as text
+            except UnicodeError:
+                return b"<not UTF-16: " + data[:60] + b">"
+        return data
 
     def step(self, st, op):
         P = []
@@ -244,11 +254,11 @@ def systems(tier):
     if tier == "quick":
         return [("lf-4writers", C14System(["pathA", "text", "rec1", "rec2"], "\\n", 2), 5, None),
                 ("crlf-3writers-debug-logging", debug(C14System(["rec1", "pathA", "binary"], "\\r\\n", 2)), 5, None),
-                ("output-option", C14System(["cfgpath", "rec1", "codecs"], "\\n", 2), 4, None),
+                ("output-option", C14System(["cfgpath", "rec1", "codecs", "utf16"], "\\n", 2), 4, None),
                 ("formatter-replaced", C14System(["rec1", "pathA"], "\\n", 2, formatters=True), 4, None)]
     return [("lf-5writers", C14System(["pathA", "pathB", "text", "rec1", "rec2"], "\\n", 3), 6, None),
             ("crlf-4writers-debug-logging", debug(C14System(["rec1", "pathA", "binary", "text"], "\\r\\n", 3)), 7, None),
-            ("output-option", C14System(["cfgpath", "rec1", "pathA", "codecs"], "\\n", 3), 6, None),
+            ("output-option", C14System(["cfgpath", "rec1", "pathA", "codecs", "utf16"], "\\n", 3), 6, None),
             ("formatter-replaced", C14System(["rec1", "pathA", "text"], "\\n", 3, formatters=True), 5, None)]
 
 
